@@ -4,8 +4,11 @@ SPEC = dict(
     harness=['h_fuzzy.c', 'h_fuzzy_ext.c'],
     # the default (double) build runs the full harness; the other two real widths run a compact type-generic companion
     configs=lambda tier: [dict(name='f64'), dict(name='f32', real=4, harness=['h_fuzzy_w.c']), dict(name='f80', real=16, harness=['h_fuzzy_w.c']),
-                          dict(name='cxx', harness=['h_cxxw.c', 'h_cxxw_shim.cc'], hflags=['-DVF_CXXW=13'], nworkers=4)],
-    parallel_configs=4,
+                          dict(name='cxx', harness=['h_cxxw.c', 'h_cxxw_shim.cc'], hflags=['-DVF_CXXW=13'], nworkers=4),
+                          # the scratch-buffer clause alone, on scratch blocks that start off an a_real boundary: the unchanged library then stores
+                          # a_real values at unaligned addresses, which UBSan's alignment check (not part of the property) would report
+                          dict(name='unaligned-scratch', cflags=['-fno-sanitize=alignment'], hflags=['-DVF_UNALIGNED_SCRATCH'], nworkers=2)],
+    parallel_configs=5,
     level='exploration',
     rule='three monitor groups. MF: for each of the 13 a_mf_* families, parameter tuples are drawn per degeneracy class (all '
          'equal-neighbour patterns a=b, b=c, c=d, ... of the piecewise-linear families, flanks a few ulps wide, c1=c2, slope-sign '
@@ -23,7 +26,7 @@ SPEC = dict(
          'magnitude bucket of a x bucket of b; PID: operator, order, table kinds, number of active e sets, number of active ec sets, '
          'outcome) - NOT the number of evaluations.',
     exhaustive={'quick': None, 'thorough': None},
-    require=['pid_fuzzy-both-inputs-in-membership-tails', 'mf-range-extreme-parameters', 'bfuzz-macro-with-expression-argument', 'a_pid_fuzzy::set_kpid', 'a_pid_fuzzy::set_rule', 'a_pid_fuzzy::pos', 'w-fuzzy-gains-weighted-mean', 'w-mf-range', 'w-mf-pairs-complementary', 'mf-range', 'mf-core-one', 'mf-support-zero', 'mf-formula', 'mf-monotone', 'mf-continuity', 'mf-s+z=1', 'mf-lins+linz=1',
+    require=['pid-scratch-every-start-offset-guards-intact', 'pid-scratch-every-start-offset-getter-and-layout', 'pid-scratch-every-start-offset-gains==aligned-twin', 'pid-scratch-used-up-to-its-last-real', 'pid_fuzzy-both-inputs-in-membership-tails', 'mf-range-extreme-parameters', 'bfuzz-macro-with-expression-argument', 'a_pid_fuzzy::set_kpid', 'a_pid_fuzzy::set_rule', 'a_pid_fuzzy::pos', 'w-fuzzy-gains-weighted-mean', 'w-mf-range', 'w-mf-pairs-complementary', 'mf-range', 'mf-core-one', 'mf-support-zero', 'mf-formula', 'mf-monotone', 'mf-continuity', 'mf-s+z=1', 'mf-lins+linz=1',
              'mf-dispatcher', 'op-commutative', 'op-formula', 'op-class-bound', 'op-monotone', 'op-boundary', 'op-inline==exported',
              'op-pid-selector', 'op-not', 'op-equ_', 'pid-bfuzz-layout', 'pid-opr-default', 'pid-partition-bound-2',
              'pid-gain-base-when-nothing-fires', 'pid-gain-finite', 'pid-gain-in-consequent-range', 'pid-gain-weighted-mean'],
